@@ -52,6 +52,8 @@ def run(chk):
     from harness import arrayprogs
     chk.queue([arrayprogs.array_convert_program(rng) for _ in range(1500 if thorough else 300)], 'array-fromfile')
     chk.queue([serialprogs.tofile_program(rng) for _ in range(2000 if thorough else 500)], 'random-tofile-chunks')
+    chk.queue([serialprogs.tofile_program(rng, lsb0=True) for _ in range(1000 if thorough else 250)], 'random-tofile-chunks-lsb0')
+    chk.queue([serialprogs.window_program(rng, lsb0=True) for _ in range(2000 if thorough else 500)], 'random-windows-lsb0')
     chk.flush()
     if thorough:
         from harness import bigfile
